@@ -121,6 +121,72 @@ def run_dynamic(cfg, changes, probe_reads=False):
     return vio, tuple(outs), shorts
 
 
+def run_transient(cfg, k, probe_reads=False):
+    """the k-th request counted from poll 1 is lost (retries exhausted, that poll fails or falls back), all others are answered:
+    whenever a call returns, keys == sensors(); the later polls must succeed."""
+    r = make_rig(cfg)
+    inv, dev = r.inv, r.dev
+    if r.call(inv.read_device_info)[0] != 'ok':
+        return [('device-info-succeeds', '')], (), []
+    drop = len(dev.log) + k
+    dev.drop_at = {drop}
+    vio = []
+    outs = []
+    shorts = []
+    lost_poll = None
+    for i in range(7):
+        l0 = len(dev.log)
+        if probe_reads:
+            from .c14 import Probe
+            with Probe() as p:
+                res = r.call(inv.read_runtime_data)
+            shorts += [(x[0], f'poll {i + 1}') for x in p.short]
+        else:
+            res = r.call(inv.read_runtime_data)
+        outs.append(res[0])
+        if l0 <= drop < len(dev.log):
+            lost_poll = i
+        if res[0] == 'ok':
+            keys, ids = set(res[1]), {s.id_ for s in inv.sensors()}
+            if keys != ids:
+                vio.append(('keys==sensors()', f'poll {i + 1} after request #{k + 1} of poll 1 was lost: in result only '
+                                               f'{sorted(keys - ids)[:3]}, in sensors() only {sorted(ids - keys)[:3]}'))
+    # exactly one request is lost in the whole run: the poll it falls in may fail, the one after it may still be the
+    # legitimate 'first call after a refusal' failure, every later poll must succeed
+    if lost_poll is not None and any(o != 'ok' for o in outs[lost_poll + 2:]):
+        vio.append(('succeeds-by-second-call', f'outcomes {outs}; request #{k + 1} (counted from poll 1) was lost in poll {lost_poll + 1}'))
+    return vio, tuple(outs), shorts
+
+
+def job_transient(j):
+    cfg, = j
+    out = {}
+    n = 0
+    for k in range(0, 9):
+        vio, outs, _ = run_transient(cfg, k)
+        n += 1
+        for clause, cause in vio:
+            key = f"{clause}/{cfg['family']}/transient-loss/refused:{'+'.join(cfg['refused']) or 'none'}"
+            out.setdefault(key, []).append(dict(key=key, clause=clause, replay=dict(cfg=cfg, transport='udp', lost=k),
+                                                detail=dict(cause=cause, lost_request_index=k)))
+    res = []
+    for key, lst in out.items():
+        lst[0]['n'] = len(lst)
+        res.append(lst[0])
+    return n, res
+
+
+def transient_configs():
+    import itertools
+    for tag, p in (('ETU', 3000), ('ETU', 25000), ('ETT', 10000)):
+        for r in range(0, 3):
+            for sub in itertools.combinations(('battery', 'battery2', 'meter_ext', 'meter_ext2', 'mppt'), r):
+                yield dict(family='ET', tag=tag, power=p, refused=sub, battery_mode=2)
+    for tag in ('DTU', 'DSN'):
+        for sub in ((), ('meter',)):
+            yield dict(family='DT', tag=tag, power=5000, refused=sub, battery_mode=0)
+
+
 def job_dyn(j):
     import itertools
     cfg, depth = j
@@ -211,6 +277,16 @@ def run(tier, seed, rep):
                 dbest[k] = v
     rep.add_many(list(dbest.values()))
     total += ndyn
+    tbest = {}
+    for n, res in pmap(job_transient, [(c,) for c in transient_configs()]):
+        total += n
+        ndyn += n
+        for v in res:
+            k = tuple(v['key'].split('/')[:3])
+            if k not in tbest or len(v['replay']['cfg']['refused']) < len(tbest[k]['replay']['cfg']['refused']):
+                v['n'] = v.get('n', 1) + (tbest[k]['n'] if k in tbest else 0)
+                tbest[k] = v
+    rep.add_many(list(tbest.values()))
     # one key per (clause, family): the smallest refused subset that fails (the others are the same cause)
     best = {}
     for v in allres:
@@ -242,6 +318,9 @@ def replay(r):
     cfg['refused'] = tuple(cfg['refused'])
     if 'changes' in r:
         vio, outs, _ = run_dynamic(cfg, r['changes'])
+        return dict(outcomes=outs, violations=vio)
+    if 'lost' in r:
+        vio, outs, _ = run_transient(cfg, r['lost'])
         return dict(outcomes=outs, violations=vio)
     vio, oc = run_config(cfg, r['transport'])
     return dict(outcome=[str(x) for x in oc], violations=vio)
